@@ -320,21 +320,6 @@ def canon_model(mo):
     return fr + "|" + ",".join("%d:%d" % kv for kv in sorted(nt.items()))
 
 
-def pre_build(ctx):
-    # re-translate import_export/_import_segmentation.py (Gen/Relabel_gen.v, tied by Proofs/RelabelTie.v)
-    import translate_numpy_utils
-
-    ok, msg = translate_numpy_utils.regenerate_relabel()
-    if not ok:
-        raise RuntimeError("translator refused _import_segmentation.py: %s" % msg)
-    # re-translate the import pipeline (Gen/ImportPipeline_gen.v, tied by Proofs/ImportTie.v)
-    import translate_import
-
-    ok, msg = translate_import.regenerate()
-    if not ok:
-        raise RuntimeError("translator refused the import sources: %s" % msg)
-
-
 def run(ctx):
     rng = ctx.rng
     n = 520 if ctx.quick() else 6500
